@@ -417,6 +417,19 @@ func (e *end) closeHalf() error {
 	return errors.New("no CloseWrite")
 }
 
+// readSize draws the largest read an endpoint issues: anything from 1 byte
+// up, but large enough that a long stream does not take minutes.
+func readSize(rng *rand.Rand, c tcase) int {
+	n := 1 + rng.Intn(65536)
+	if rng.Intn(4) == 0 {
+		n = 1 + rng.Intn(64)
+	}
+	if min := (c.CSize+c.TSize+c.Early)/4000 + 1; n < min {
+		n = min
+	}
+	return n
+}
+
 // segPolicy dictates how many bytes each proxy-side Read returns.
 type segPolicy struct {
 	mu      sync.Mutex
@@ -587,7 +600,7 @@ func (w *world) serveTarget(conn net.Conn) {
 			return
 		}
 	}
-	e.recvLoop(1 + e.rrng.Intn(65536))
+	e.recvLoop(readSize(e.rrng, c))
 }
 
 func (w *world) dialPipe(network, addr string) (net.Conn, error) {
@@ -751,7 +764,7 @@ func runTunnel(r *vh.Run, c tcase, budget *tunx.Budget) {
 		respHead.Store(h)
 		atomic.StoreInt32(&headSeen, 1)
 		atomic.AddInt64(&w.events, 1)
-		cl.recvLoop(1 + cl.rrng.Intn(65536))
+		cl.recvLoop(readSize(cl.rrng, c))
 	}()
 
 	// head + early data
@@ -802,7 +815,8 @@ func runTunnel(r *vh.Run, c tcase, budget *tunx.Budget) {
 	dirCT, dirTC := "client-to-target", "target-to-client"
 
 	// --- phase 1: the CONNECT response
-	if !w.await("C04:connect-response:"+c.Route, "no response to CONNECT at quiescence", func() bool { return atomic.LoadInt32(&headSeen) != 0 }) {
+	if !w.await("C04:connect-response:"+c.Route, "the target was dialled (and a downstream proxy, if any, answered 200 to the forwarded CONNECT), but the client has no response to its CONNECT at quiescence: the tunnel never becomes usable",
+		func() bool { return atomic.LoadInt32(&headSeen) != 0 }) {
 		return
 	}
 	if atomic.LoadInt32(&headSeen) == 2 {
@@ -1286,7 +1300,12 @@ func run(r *vh.Run, batch string) {
 		}
 		c := gen(r, "c04-"+kind, g, tr, race)
 		r.Case(c)
+		t0 := time.Now()
 		runTunnel(r, c, budget)
+		if d := time.Since(t0); d > 2*time.Second {
+			fmt.Printf("SLOW case %d took %.1fs\n", g, d.Seconds())
+			r.Count("cases_slower_than_2s", 1)
+		}
 	}
 }
 
